@@ -2,11 +2,3 @@ import BedVerif.Basic
 import BedVerif.Model.Lapper
 import BedVerif.Model.GMap
 import BedVerif.Spec.Lapper
-import BedVerif.Lemmas.FastCover
-import BedVerif.Props.C18Fast
-import BedVerif.Lemmas.FastCount
-import BedVerif.Props.C19Fast
-import BedVerif.Lemmas.FastDepth
-import BedVerif.Props.C20Fast
-import BedVerif.Lemmas.FastBedgraph
-import BedVerif.Props.C08Fast
